@@ -125,6 +125,23 @@ const SCALARS: &[char] = &[
 /// One choice word per character; word 0 gives 'a'.
 pub fn text_of_len(src: &mut Src, len: usize) -> String {
     let mut s = String::with_capacity(len);
+    // one text in ten is the kind of string these members really carry: a URL / data URI / e-mail
+    // address / domain name / path, i.e. a scheme-like prefix followed by printable ASCII with
+    // punctuation (the other classes only use letters and a few symbols)
+    if len >= 1 && src.chance(1, 10) {
+        const PREFIXES: [&str; 14] = ["data:", "https://", "http://", "mailto:", "file:///", "javascript:", "//", "www.", "data:image/png;base64,", "data:,", "urn:", "android:apk-key-hash:", "public-key", "."];
+        let p = PREFIXES[src.below(PREFIXES.len())];
+        for ch in p.chars() {
+            if s.len() < len {
+                s.push(ch);
+            }
+        }
+        while s.len() < len {
+            let c = 0x20 + ((src.word() as u64 * 95) >> 32) as u8;
+            s.push(c as char);
+        }
+        return s;
+    }
     let ascii_only = src.chance(1, 3);
     // one text in eight ends in a code point (sequence) that text processing likes to treat
     // specially: joiners, variation selectors, direction marks, BOM, combining marks, the WebAuthn
